@@ -42,7 +42,24 @@ func main() {
 		witH := make([][]e2e.EngStep, len(wits)*len(modes))
 		var all [][]e2e.EngStep
 		var wg sync.WaitGroup
-		wg.Add(1 + len(witH))
+		// part C: the targeted shapes
+		var shapeOpts []e2e.C02ShapeOpts
+		for rep := 0; rep < c.Scale(1, 12); rep++ {
+			for _, k := range e2e.C02ShapeKinds {
+				for _, m := range modes {
+					for _, w := range []bool{false, true} {
+						shapeOpts = append(shapeOpts, e2e.C02ShapeOpts{Kind: k, Cache: m, WipeAll: w, Steps: c.Scale(4, 7)})
+					}
+				}
+			}
+		}
+		rS := c.Rng.Fork()
+		var shapes [][]e2e.EngStep
+		wg.Add(2 + len(witH))
+		go func() {
+			defer wg.Done()
+			shapes = e2e.EngRunC02Shapes(rS, base+"/shapes", shapeOpts, 8)
+		}()
 		go func() {
 			defer wg.Done()
 			all = e2e.EngRunHistories(rH, base, n, 8, func(i int) e2e.EngOpts {
@@ -73,6 +90,34 @@ func main() {
 				c.Case(e2e.EngCaseTerm(h), histJSON(1000+wi, h, len(h)-1, m), e2e.EngKey(h)+m, true)
 			}
 		}
+		for i, h := range shapes {
+			o := shapeOpts[i]
+			nontrivial := false
+			for k := range h {
+				st := &h[k]
+				c.Hist("edit", st.Edit.Kind)
+				c.Hist("cache", o.Cache)
+				c.Hist("shape", fmt.Sprintf("%s wipe-all=%v", o.Kind, o.WipeAll))
+				if k > 0 && st.Exit == 0 && h[k-1].Exit == 0 {
+					switch o.Kind {
+					case "multi": // the dependency's outputs changed, its command did not run, plz-out was there: restored over the old outputs
+						if same, _ := e2e.OutputsEqual(st.Clean["//p:dep"], h[k-1].Clean["//p:dep"]); !same && !st.Wipe && !contains(st.Executed, "//p:dep") {
+							nontrivial = true
+							c.Hist("restore", "multi-output dependency restored over other outputs")
+						}
+					case "ntool":
+						if same, _ := e2e.OutputsEqual(st.Clean["//p:gen"], h[k-1].Clean["//p:gen"]); !same {
+							nontrivial = true
+							if st.Wipe && !contains(st.Executed, "//p:usen") {
+								c.Hist("restore", "user of a named tool restored after the tool's output changed back")
+							}
+						}
+					}
+				}
+				oracle(c, 2000+i, h, k, o.Cache)
+			}
+			c.Case(e2e.EngCaseTerm(h), histJSON(2000+i, h, len(h)-1, o.Cache), e2e.EngKey(h)+o.Cache+fmt.Sprint(o.WipeAll), nontrivial)
+		}
 		for i, h := range all {
 			restored := false
 			for k := range h {
@@ -87,6 +132,15 @@ func main() {
 			c.Case(e2e.EngCaseTerm(h), histJSON(i, h, len(h)-1, mode(i)), e2e.EngKey(h)+mode(i), restored)
 		}
 	})
+}
+
+func contains(xs []string, x string) bool {
+	for _, y := range xs {
+		if y == x {
+			return true
+		}
+	}
+	return false
 }
 
 func specKey(s *e2e.Spec) string { b, _ := json.Marshal(s); return string(b) }
